@@ -76,20 +76,33 @@ def confirm(src, name):
         sh("git -C /repo worktree remove --force %s" % SCRATCH)
 
 
-def run(name, checks, tier="quick"):
+def run(name, checks, tier="quick", inplace=False):
+    """default: a scratch worktree of /repo HEAD with the patch applied, checks run with VERIF_REPO pointing at it
+    (so /repo itself is never touched); --inplace: git -C /repo apply ... run ... git -C /repo checkout -- ."""
     patch = os.path.join(V, "seeded", name, "patch.diff")
-    st = sh("git -C /repo status --porcelain -- src").stdout.strip()
-    if st:
-        print("refusing: /repo has local changes:\n" + st)
-        return 2
     results = {}
-    ap = sh("git -C /repo apply %s" % patch)
+    if inplace:
+        st = sh("git -C /repo status --porcelain -- src").stdout.strip()
+        if st:
+            print("refusing: /repo has local changes:\n" + st)
+            return 2
+        ap = sh("git -C /repo apply %s" % patch)
+        target, env = "/repo", dict(os.environ)
+    else:
+        target = "/tmp/wt/_run_%s_%d" % (name, os.getpid())
+        sh("git -C /repo worktree remove --force %s" % target)
+        r = sh("git -C /repo worktree add -q --detach %s HEAD" % target)
+        assert r.returncode == 0, r.stdout
+        ap = sh("git -C %s apply %s" % (target, patch))
+        env = dict(os.environ, VERIF_REPO=target)
     if ap.returncode != 0:
-        print("patch does not apply to /repo: " + ap.stdout)
+        print("patch does not apply: " + ap.stdout)
+        if not inplace:
+            sh("git -C /repo worktree remove --force %s" % target)
         return 2
     try:
         for c in checks:
-            r = sh([os.path.join(V, "check"), c, "--tier", tier], cwd=V)
+            r = sh([os.path.join(V, "check"), c, "--tier", tier], cwd=V, env=env)
             hit = [l for l in r.stdout.splitlines() if l.startswith("VIOLATION")]
             results[c] = ("DETECTED" if r.returncode == 1 and hit else "MISSED" if r.returncode == 0 else "RC%d" % r.returncode)
             keys = [l.strip() for l in r.stdout.splitlines() if l.strip().startswith("key:")]
@@ -97,10 +110,13 @@ def run(name, checks, tier="quick"):
             if results[c].startswith("RC"):
                 print(r.stdout[-1500:])
     finally:
-        sh("git -C /repo checkout -- .")
-        for f in os.listdir("/repo"):
-            if f.startswith(".coverage"):
-                os.remove(os.path.join("/repo", f))
+        if inplace:
+            sh("git -C /repo checkout -- .")
+            for f in os.listdir("/repo"):
+                if f.startswith(".coverage"):
+                    os.remove(os.path.join("/repo", f))
+        else:
+            sh("git -C /repo worktree remove --force %s" % target)
     # evidence/replay files written while a mutant was applied are not evidence of the real tree
     sh("git -C %s checkout -- evidence" % V)
     shutil.rmtree(os.path.join(V, "replays"), ignore_errors=True)
@@ -122,7 +138,10 @@ def main():
             i = a.index("--tier")
             tier = a[i + 1]
             del a[i:i + 2]
-        sys.exit(run(a[1], a[2:], tier))
+        inplace = "--inplace" in a
+        if inplace:
+            a.remove("--inplace")
+        sys.exit(run(a[1], a[2:], tier, inplace))
     if a[0] == "runall":
         tier = a[a.index("--tier") + 1] if "--tier" in a else "quick"
         for name in sorted(os.listdir(os.path.join(V, "seeded"))):
